@@ -401,6 +401,48 @@ pub fn run(t: &[&str]) -> String {
                 out.push(h32(c));
             }
         }
+        "fprot" => {
+            // fprot <new|default> n (d_az d_alt)*n probe(3) delta(3): a fresh FirstPerson, then n relative rotations
+            let mut fp = if t[1] == "default" { FirstPerson::default() } else { FirstPerson::new() };
+            let n: usize = t[2].parse().unwrap();
+            for c in fp.pos.0 {
+                out.push(h32(c));
+            }
+            out.push(h32(fp.heading.r()));
+            out.push(h32(fp.heading.az().to_rads()));
+            out.push(h32(fp.heading.alt().to_rads()));
+            let mut i = 3;
+            for _ in 0..n {
+                let (daz, dalt) = (pf32(t[i]), pf32(t[i + 1]));
+                i += 2;
+                // the same step through rotate_to on a copy
+                let mut twin = fp;
+                twin.rotate_to(twin.heading.az() + rads(daz), twin.heading.alt() + rads(dalt));
+                fp.rotate(rads(daz), rads(dalt));
+                out.push(h32(fp.heading.az().to_rads()));
+                out.push(h32(fp.heading.alt().to_rads()));
+                out.push(((twin.heading.0 == fp.heading.0 && twin.pos.0 == fp.pos.0) as u8).to_string());
+            }
+            let probe = p3(t, &mut i);
+            let delta = p3(t, &mut i);
+            let (saz, caz) = fp.heading.az().sin_cos();
+            let (salt, calt) = fp.heading.alt().sin_cos();
+            out.push(h32(fp.heading.r()));
+            for x in [caz, saz, calt, salt] {
+                out.push(h32(x));
+            }
+            let view = fp.world_to_view();
+            push_m4(&mut out, &view);
+            for q in [probe, [0.0; 3], [0.0; 3]] {
+                for c in view.apply_pt(&pt3(q[0], q[1], q[2])).0 {
+                    out.push(h32(c));
+                }
+            }
+            fp.translate(vec3(delta[0], delta[1], delta[2]));
+            for c in fp.pos.0 {
+                out.push(h32(c));
+            }
+        }
         _ => panic!("unknown op"),
     }
     out.join(" ")
@@ -757,6 +799,29 @@ pub fn gen(rng: &mut Rng, tier: Tier, out: &mut Vec<String>) {
         let probe = [fl(rng, -20.0, 20.0), fl(rng, -20.0, 20.0), fl(rng, -20.0, 20.0)];
         let delta = [fl(rng, -5.0, 5.0), fl(rng, -5.0, 5.0), fl(rng, -5.0, 5.0)];
         out.push(format!("fp {} {} {} {}", h3(pos), kind, h3(probe), h3(delta)));
+    }
+    // ---- first person: fresh state (new / default) and sequences of relative rotations
+    for i in 0..(if q { 1500 } else { 50_000 }) {
+        use std::f32::consts::{FRAC_PI_2, PI};
+        let init = if i % 2 == 0 { "new" } else { "default" };
+        let n = (i / 2) % 6; // 0 steps: the fresh state alone
+        let mut s = format!("fprot {init} {n}");
+        for k in 0..n {
+            let (daz, dalt) = match (i / 12 + k) % 8 {
+                0 => (3.0, 0.0),                                  // two of these cross the +half-turn seam
+                1 => (-3.0, 0.3),                                 // ... and the -half-turn seam
+                2 => (rng.f32_in(-0.5, 0.5), 1.0),                // altitude runs into the +quarter-turn clamp
+                3 => (rng.f32_in(-0.5, 0.5), -1.2),               // ... and the -quarter-turn clamp
+                4 => ((rng.range(-4, 5) as f32) * FRAC_PI_2, (rng.range(-2, 3) as f32) * FRAC_PI_2),
+                5 => (PI + rng.f32_in(-0.01, 0.01), 0.0),         // lands right next to the seam
+                6 => (rng.f32_in(-7.0, 7.0), rng.f32_in(-2.0, 2.0)),
+                _ => (rng.f32_in(-0.3, 0.3), rng.f32_in(-0.3, 0.3)),
+            };
+            s += &format!(" {} {}", h32(daz), h32(dalt));
+        }
+        let probe = [fl(rng, -20.0, 20.0), fl(rng, -20.0, 20.0), fl(rng, -20.0, 20.0)];
+        let delta = [fl(rng, -5.0, 5.0), fl(rng, -5.0, 5.0), fl(rng, -5.0, 5.0)];
+        out.push(format!("{s} {} {}", h3(probe), h3(delta)));
     }
 }
 
